@@ -420,6 +420,10 @@ Value Search::search(Position& position, Depth depth, Value alpha, Value beta,
     uint64_t savedNumNodesSearched = _stats.nodes_searched;
 #endif
 
+    // the value of a root restricted by searchmoves is not the value of the
+    // position: it must not be stored for later (unrestricted) searches
+    const bool storeEntry = !(ROOT_NODE && limits.searchmovesnum > 0);
+
     Value bestValue = -VALUE_INFINITE;
     bool found = false;
     auto entryPtr = _ttable.probe(position.hash(), found);
@@ -635,7 +639,7 @@ Value Search::search(Position& position, Depth depth, Value alpha, Value beta,
 
                     tt::TTEntry entry(result, depth, tt::Flag::kLOWER_BOUND,
                                       move);
-                    _ttable.insert(position.hash(), entry);
+                    if (storeEntry) _ttable.insert(position.hash(), entry);
 
 #if LOG_LEVEL > 1
                     {
@@ -669,7 +673,7 @@ Value Search::search(Position& position, Depth depth, Value alpha, Value beta,
     {
         tt::Flag flag = PV_NODE ? tt::Flag::kEXACT : tt::Flag::kUPPER_BOUND;
         tt::TTEntry entry(bestValue, depth, flag, best_move);
-        _ttable.insert(position.hash(), entry);
+        if (storeEntry) _ttable.insert(position.hash(), entry);
 
         LOG_DEBUG("[%d] BEST MOVE %s", info->_ply,
                   position.uci(best_move).c_str());
